@@ -115,6 +115,34 @@ theorem pacing_lower_bound_target (cfg : Cfg) (tbl : List Nat) (ops : List Op) (
     _ = (idx * tk + idx) * n := by rw [← Nat.mul_assoc, Nat.mul_add, Nat.mul_one]
     _ ≤ (now - (TM.run toi pre).tStart + idx) * n := Nat.mul_le_mul_right _ (by omega)
 
+/-- the rounding of the tick is a lemma (it was a hypothesis checked by the harness while the tick came from
+    `Duration::div_f64`): `tick = target / n` (floor) is within one nanosecond per packet of the real quotient -/
+theorem tick_floor_round (target n : Nat) (hn : 0 < n) :
+    (target / n) * n ≤ target ∧ target ≤ (target / n + 1) * n := by
+  constructor
+  · exact Nat.div_mul_le_self target n
+  · have h1 := Nat.div_add_mod target n
+    have h2 := Nat.mod_lt target hn
+    rw [Nat.add_mul, Nat.one_mul, Nat.mul_comm]
+    omega
+
+/-- Pacing lower bound in terms of the TARGET, for every target: when the Start event of the transfer carries the
+    tick the (repaired, sched-4) code and the model's driver compute - `Sched.tickOf`: `target / n`, exact integer
+    division of the nanoseconds - packet `idx` does not leave before `start + idx * target / n` minus `idx` ns of
+    integer rounding: `idx * target ≤ (now - start + idx) * n`.  (`target` = the target duration, or the time left to
+    the deadline at the transfer start; `n` = number of source packets, `> 0` for a paced object.) -/
+theorem pacing_lower_bound_floor (cfg : Cfg) (tbl : List Nat) (ops : List Op) (toi : Nat)
+    (post pre : List Ev) (now prio idx : Nat) (b : Bool)
+    (hs : trace cfg tbl ops = post ++ Ev.pkt now prio toi idx b :: pre) (target n : Nat) (hn : 0 < n)
+    (ht : (TM.run toi pre).tick = some (target / n)) :
+    idx * target ≤ (now - (TM.run toi pre).tStart + idx) * n :=
+  pacing_lower_bound_target cfg tbl ops toi post pre now prio idx b hs (target / n) target n ht
+    (tick_floor_round target n hn).2
+
+/-- ... and the tick of `Sched.tickOf` is that quotient -/
+theorem tickOf_is_floor (f : FileDesc) (now d : Nat) (h : f.target = some (.dur d)) : tickOf f now = d / f.nSym := by
+  unfold tickOf; rw [h]
+
 /-- Pacing progress: a due packet is not held back.  After every operation history, if a slot of queue `q` holds a
     transfer whose pacing gate is open at `now` (`next_transfer_timestamp ≤ now`, or not paced) and which still
     has packets, the FIRST `read(now)` returns a packet - an FDT packet, or an object packet of priority `≤ q.prio`
